@@ -1065,5 +1065,73 @@ theorem lcValueAt_unique (trips : List (Trip F)) (lcs : List (LC.LinComb F))
   unfold lcValueAt polyPartAt Marlin.lookupLast LC.value
   rw [h1, h2, lc_value_split]
 
+/-! ### the batch defect is affine in the per-point combined claims -/
+
+/-- the per-point shifts `(dCₖ − g·dVₖ)·h` (zip-truncated like the code) -/
+def claimShifts (vk : VK F) : List F → List F → List F
+  | dc :: dcs, dv :: dvs => (dc - vk.g * dv) * vk.h :: claimShifts vk dcs dvs
+  | _, _ => []
+
+theorem wsum_add (r : F) (rs ds es : List F) (hl : ds.length = es.length) :
+    wsum r rs (List.zipWith (· + ·) ds es) = wsum r rs ds + wsum r rs es := by
+  induction ds generalizing r rs es with
+  | nil =>
+    cases es with
+    | nil => simp [wsum]
+    | cons _ _ => simp at hl
+  | cons d ds ih =>
+    cases es with
+    | nil => simp at hl
+    | cons e es =>
+      simp only [List.zipWith_cons_cons, wsum, ih _ _ es (by simpa using hl)]
+      ring
+
+theorem defectsC_shift (vk : VK F) (cs dcs : List F) (zs : List (List F)) (vs dvs : List F)
+    (πs : List (Proof F)) (h1 : dcs.length = cs.length) (h2 : dvs.length = vs.length)
+    (h3 : cs.length = vs.length) (h4 : zs.length = cs.length) (h5 : πs.length = cs.length) :
+    defectsC vk (List.zipWith (· + ·) cs dcs) zs (List.zipWith (· + ·) vs dvs) πs
+      = List.zipWith (· + ·) (defectsC vk cs zs vs πs) (claimShifts vk dcs dvs)
+    ∧ (defectsC vk cs zs vs πs).length = (claimShifts vk dcs dvs).length := by
+  induction cs generalizing dcs zs vs dvs πs with
+  | nil =>
+    cases dcs with
+    | nil => simp [defectsC, claimShifts]
+    | cons _ _ => simp at h1
+  | cons c cs ih =>
+    cases dcs with
+    | nil => simp at h1
+    | cons dc dcs =>
+      cases vs with
+      | nil => simp at h3
+      | cons v vs =>
+        cases dvs with
+        | nil => simp at h2
+        | cons dv dvs =>
+          cases zs with
+          | nil => simp at h4
+          | cons z zs =>
+            cases πs with
+            | nil => simp at h5
+            | cons π πs =>
+              obtain ⟨i1, i2⟩ := ih dcs zs vs dvs πs (by simpa using h1) (by simpa using h2)
+                (by simpa using h3) (by simpa using h4) (by simpa using h5)
+              simp only [List.zipWith_cons_cons, defectsC, claimShifts, defectCombined_shift, i1,
+                List.length_cons, i2, and_self]
+
+/-- **Every per-point combined claim enters the batch decision with its randomizer**: moving the
+combined commitments / values by `(dcs, dvs)` moves the pairing product of `batch_check` by
+`Σₖ ρₖ·(dCₖ − g·dVₖ)·h`. -/
+theorem batchDefect_shift (vk : VK F) (cs dcs : List F) (zs : List (List F)) (vs dvs : List F)
+    (πs : List (Proof F)) (rs : List F) (h1 : dcs.length = cs.length) (h2 : dvs.length = vs.length)
+    (h3 : cs.length = vs.length) (h4 : zs.length = cs.length) (h5 : πs.length = cs.length)
+    (hbh : vk.numVars ≤ vk.betaH.length) (hπ : ∀ π ∈ πs, π.w.length = vk.numVars)
+    (hz : ∀ z ∈ zs, vk.numVars ≤ z.length) :
+    batchDefect vk (List.zipWith (· + ·) cs dcs) zs (List.zipWith (· + ·) vs dvs) πs rs
+      = .ok (wsum 1 rs (defectsC vk cs zs vs πs) + wsum 1 rs (claimShifts vk dcs dvs))
+    ∧ batchDefect vk cs zs vs πs rs = .ok (wsum 1 rs (defectsC vk cs zs vs πs)) := by
+  obtain ⟨e1, e2⟩ := defectsC_shift vk cs dcs zs vs dvs πs h1 h2 h3 h4 h5
+  refine ⟨?_, batchDefect_eq vk cs zs vs πs rs (by omega) hbh hπ hz⟩
+  rw [batchDefect_eq vk _ zs _ πs rs (by omega) hbh hπ hz, e1, wsum_add _ _ _ _ e2]
+
 end PST
 end PCV
